@@ -379,3 +379,54 @@ func intBits(t types.Type) (bits int, unsigned bool) {
 	}
 	return 0, false
 }
+
+// globalWriters lists positions of assignments to a package-level variable
+// outside its declaration.
+func (w *World) globalWriters(v *types.Var) []string {
+	var out []string
+	for _, p := range w.Mod {
+		for _, f := range p.Syntax {
+			if strings.HasSuffix(w.Fset.Position(f.Pos()).Filename, "_test.go") {
+				continue
+			}
+			ast.Inspect(f, func(n ast.Node) bool {
+				switch x := n.(type) {
+				case *ast.AssignStmt:
+					for _, l := range x.Lhs {
+						if w.refersTo(p, l, v) {
+							out = append(out, w.Pos(l.Pos()))
+						}
+					}
+				case *ast.IncDecStmt:
+					if w.refersTo(p, x.X, v) {
+						out = append(out, w.Pos(x.Pos()))
+					}
+				case *ast.UnaryExpr:
+					if x.Op == token.AND && w.refersTo(p, x.X, v) {
+						out = append(out, w.Pos(x.Pos())+" (address taken)")
+					}
+				}
+				return true
+			})
+		}
+	}
+	return out
+}
+
+func (w *World) refersTo(p *packages.Package, e ast.Expr, v *types.Var) bool {
+	for {
+		switch x := e.(type) {
+		case *ast.ParenExpr:
+			e = x.X
+			continue
+		case *ast.Ident:
+			return p.TypesInfo.Uses[x] == v
+		case *ast.SelectorExpr:
+			if p.TypesInfo.Uses[x.Sel] == v {
+				return true
+			}
+			return false
+		}
+		return false
+	}
+}
